@@ -298,6 +298,10 @@ func (smf *SMFailed) UnmarshalXML(d *xml.Decoder, start xml.StartElement) error 
 				rcf := RemoteConnectionFailed{}
 				err = d.DecodeElement(&rcf, &tt)
 				smf.StreamErrorGroup = &rcf
+			case "reset":
+				rs := Reset{}
+				err = d.DecodeElement(&rs, &tt)
+				smf.StreamErrorGroup = &rs
 			case "resource-constraint":
 				rc := ResourceConstraint{}
 				err = d.DecodeElement(&rc, &tt)
